@@ -56,6 +56,8 @@ iter:
 	for n := 0; true; n++ {
 		for i := 0; i < cnt; i++ {
 			switch ta := args[i].(type) {
+			case nil: // the empty list
+				break iter
 			case slip.String:
 				ra := []rune(ta)
 				if len(ra) <= n {
